@@ -40,6 +40,7 @@ type Run struct {
 	notes   map[string]bool
 	outside []string
 	unclaimed []Unclaimed
+	hints     map[string]string
 }
 
 // Unclaimed: obligations generated and attempted on every run but not part of the claim (not robustly dischargeable
@@ -287,7 +288,7 @@ func (r *Run) solve() {
 		panic(err)
 	}
 	defer os.RemoveAll(scratch)
-	opt := solveOpts{timeout: 10 * time.Second, workers: 16, seed: r.seed, scratch: scratch}
+	opt := solveOpts{timeout: 10 * time.Second, workers: 16, seed: r.seed, scratch: scratch, hints: r.hints}
 	if r.tier == "thorough" {
 		opt.timeout = 60 * time.Second
 		opt.second = true
